@@ -3,31 +3,35 @@
 (* hidden from the fingerprint (VIEW); the step properties PA_* are checked on every generated            *)
 (* transition.  NextR prunes arguments the transcribed checks cannot look at: a creator different from    *)
 (* the signer is rejected by the ante chain before anything is read (one wrong creator per signer);       *)
-(* funder lists are drawn from the rich and the poor user only; vesting months are only read at           *)
-(* activation (all values tried), amounts everywhere.                                                     *)
+(* funder lists are drawn from the rich and the poor user only; a gift by bank transaction is rejected    *)
+(* before anything is read (one tried).                                                                   *)
 EXTENDS LightNode
 CONSTANTS MaxOps, MaxNow
-FundsSmall == <<3, 0, 2>>       \* user 1 rich, user 2 cannot pay a single unit, user 3 = the address with an account
+\* <<bond denom, other denom>>: user 1 rich, user 2 cannot pay a single bond unit but holds the other denom, user 3 = the address with an account
+FundsSmall == << <<3, 1>>, <<0, 2>>, <<2, 0>> >>
 OtherOf(a) == CHOOSE b \in Signers : b # a
 OtherUser(a) == CHOOSE b \in Users : b # a
 Lists2 == {<<>>, <<1>>, <<2>>, <<1, 2>>, <<2, 1>>}
+MinOf(S) == CHOOSE x \in S : \A y \in S : x <= y
 NextR ==
-  \/ \E who \in Users, c \in Addrs, amt \in Amounts, m \in Months : \E as \in {who, OtherUser(who)} : AddLicense(who, as, c, amt, m)
+  \/ \E who \in Users, c \in Addrs, amt \in Amounts, m \in Months, d \in Denoms : AddLicense(who, who, c, amt, m, d)
+  \/ \E who \in Users : AddLicense(who, OtherUser(who), MinOf(Fresh), 1, MinOf(Months), Bond)
   \/ \E who \in Signers : \E as \in {who, OtherOf(who)} : Register(who, as) \/ Auth(who, as)
   \/ \E ch \in SaleChains, k \in Contracts, c \in Addrs, amt \in Amounts : Sale(ch, k, c, amt)
   \/ \E fs \in Lists2 : fs # funders /\ SetFunders(fs)
   \/ ~feegr /\ SetFeegranter
   \/ \E ch \in SaleChains, k \in Contracts \cup {0} : SetSale(ch, k)
-  \/ \E who \in Users, amt \in Amounts \ {0}, via \in {"tx", "keeper"} : Gift(who, amt, via)
+  \/ \E who \in Users, amt \in Amounts \ {0} : Gift(who, amt, "keeper")
+  \/ Gift(1, 1, "tx")
   \/ \E c \in Fresh, q \in 1..5 : Advance(c, q)
 \* second initial state: everything configured (so that sale + activation + vesting fit into a small bound)
-InitCfg == /\ escrow = 0 /\ lic = [c \in {} |-> 0]
+InitCfg == /\ escrow = ZeroD /\ lic = [c \in {} |-> 0]
            /\ acct = [c \in Fresh |-> "none"] /\ vest = [c \in {} |-> 0]
-           /\ bal = [a \in Users \cup Fresh |-> IF a \in Users THEN Funds[a] ELSE 0]
+           /\ bal = [a \in Users \cup Fresh |-> IF a \in Users THEN [d \in Denoms |-> Funds[a][d]] ELSE ZeroD]
            /\ clients = {} /\ grants = {}
            /\ funders = <<1, 2>> /\ feegr = TRUE /\ sale = [ch \in SaleChains |-> IF ch = 1 THEN 1 ELSE 0]
-           /\ gifts = 0 /\ now = 0
-           /\ res = "init" /\ last = Rec("Init", 0, 0, 0, 0, 0, 0, 0, 0, "") /\ nops = 0
+           /\ gifts = ZeroD /\ now = 0
+           /\ res = "init" /\ last = Rec("Init", 0, 0, 0, 0, 0, 0, 0, 0, "", 0) /\ nops = 0
 Init2 == Init \/ InitCfg
 MCView == <<svars, nops>>
 Constr == nops <= MaxOps /\ now <= MaxNow
